@@ -59,17 +59,20 @@ theorem selection_ok_in (choose : List Nat → Nat → List Nat) (hch : ChooseOK
   rw [Lemmas.chunksKept_eq, ← flatOf, Lemmas.pairsOf_flatOf, ← Lemmas.specOK_eq_in]
   exact Lemmas.selection_ok choose hch x hd.grid
 
-/-- Only the ORDER of spike times and chunk bounds matters: seen through any strictly increasing map of the time
-axis (`Inp.mapTimes`: times and bounds both mapped) the selection is the same list of spike ids and the kept chunks
-are the images of the kept chunks — for every random choice, every input with one time per spike.  This is why a
-model with `Int` times covers fractional, negative and float-typed times and grids (each finite set of rationals is
-the strictly increasing image of integers), and what the correspondence run relies on when it hands the real
-selector `(t − shift)·scale` for the model's `t`. -/
+/-- Only the ORDER of spike times and chunk bounds matters, FOR INTEGER RE-TIMINGS: seen through any strictly increasing
+map `f : Int → Int` of the time axis (`Inp.mapTimes`: times and bounds both mapped) the selection is the same list of
+spike ids and the kept chunks are the images of the kept chunks — for every random choice and every input of the real
+selector's domain (`Dom x`: a grid of ≥ 2 strictly increasing bounds, `1 ≤ nKept` — at `nKept = 0` the real constructor
+raises ZeroDivisionError and there is nothing to compare —, one time per spike).  The statement is about `Int → Int`
+only: it covers shifted, negative and rescaled INTEGER times and grids.  It does NOT by itself cover rational or
+float-typed times; that such inputs behave as their integer order-images is an argument outside this theorem (each
+finite set of rationals is the strictly increasing image of integers) and, for the real selector, is what the
+correspondence run checks when it hands the real code `(t − shift)·scale` for the model's `t`. -/
 theorem selection_order_invariant (choose : List Nat → Nat → List Nat) (f : Int → Int)
-    (hf : ∀ a b, a < b → f a < f b) (x : Inp) (hd : x.times.length = x.clusters.length) :
+    (hf : ∀ a b, a < b → f a < f b) (x : Inp) (hdom : Dom x) :
     selectWith choose (x.mapTimes f) = selectWith choose x ∧
     chunksKept (x.mapTimes f).bounds x.nKept = (chunksKept x.bounds x.nKept).map f :=
-  ⟨Lemmas.selectWith_mapTimes choose f hf x hd, Lemmas.chunksKept_map f x.bounds x.nKept⟩
+  ⟨Lemmas.selectWith_mapTimes choose f hf x hdom.times, Lemmas.chunksKept_map f x.bounds x.nKept⟩
 
 /-! Non-vacuity -/
 example : chunksKept [0, 10, 20, 30, 40, 50] 2 = [0, 10, 30, 40] := by decide
@@ -96,6 +99,10 @@ example :
     (x.mapTimes (fun t => 3 * t - 100)).bounds = [-100, -70, -40, -10, 20, 50] ∧
     selectWith (fun l n => l.take n) (x.mapTimes (fun t => 3 * t - 100)) = [0, 1] ∧
     chunksKept (x.mapTimes (fun t => 3 * t - 100)).bounds 2 = [-100, -70, -10, 20] := by decide
+-- the input of the re-timing example above is in the domain, and `t ↦ 3t − 100` is strictly increasing
+example : Dom ⟨[1, 5, 12, 31, 33, 39, 45], [2, 2, 7, 2, 2, 2, 7], [0, 10, 20, 30, 40, 50], 2, some 2, [7, 2, 9], true, none⟩ :=
+  ⟨⟨by decide, by decide⟩, by decide, by decide⟩
+example : ∀ a b : Int, a < b → 3 * a - 100 < 3 * b - 100 := by intro a b h; omega
 example : Dom ⟨[1, 5, 12], [2, 2, 7], [0, 10, 20], 1, some 2, [7, 2], true, none⟩ :=
   ⟨⟨by decide, by decide⟩, by decide, by decide⟩
 
